@@ -20,8 +20,9 @@ RULE = ("a case is a namespace tree on disk (3-12 definitions in 1-3 root direct
         "root / missing versions) plus read_namespace and read_files calls for several target subsets, and one read_files "
         "call per definition on its own; non-trivial = at least one call returns a type with a nested composite or fails in "
         "resolution; distinct = by hash of the canonical case")
-THEOREMS_NOTE = ("C09_resolve_exact / C09_errors fix the outcome of a resolution, C09_terminates / C09_cycles the outcome on cycles, "
-                 "C09_standalone / C09_cache_order the independence from referrer and order under case_unique")
+THEOREMS_NOTE = ("C09_resolve_exact / C09_resolve_never_other / C09_errors fix the outcome of a resolution, C09_terminates / C09_cycles / "
+                 "C09_acyclic the outcome on self references and cycles, C09_standalone / C09_cache_order / C09_reported the independence "
+                 "from referrer, order and cache under case_unique; C09_standalone_refuted is the F7 witness")
 TRUSTED = ["parsimonious, pathlib and the file system are exercised through the implementation only",
            "names are ASCII in every generated case (str.lower() is modelled as ASCII lower-casing)"]
 ASSUMPTIONS = ["bodies are sealed structures made of composite fields (optionally fixed arrays), uintN fields, @print and @assert false"]
